@@ -334,7 +334,24 @@ def r3_fifo(ctx, F):
                       'element removal sites %d)' % (fn, len(whole), len(rm)))
     # actions() enumerates deliverable envelopes
     ac = F.body(ACTIONS)
-    okd = len(ac.calls_to('Network::iter_deliverable')) == 1 and not ac.calls_to('Network::iter_all')
+    # every Deliver / Drop offer is built from an element of state.network.iter_deliverable() (the loop may be
+    # written once, or once per kind of network), and iter_all() is not consulted
+    from taint import origins as _org
+    dcalls = ac.calls_to('Network::iter_deliverable')
+    okd = len(dcalls) >= 1 and not ac.calls_to('Network::iter_all')
+    if okd and len(dcalls) > 1:
+        acn = F.norm(ac)
+        heads = []
+        for h in acn.calls_to('Iterator::next'):
+            srcv = noref(acn.trace(acn.val(h.args[0]), ('IntoIterator::into_iter',)))
+            hc = acn.call_at(srcv.key) if srcv.kind == 'call' else None
+            if hc is not None and hc.is_('Network::iter_deliverable'):
+                heads.append(h)
+        for (i, si, st) in acn.assigns(lambda st: st['rv']['k'] == 'agg' and
+                                       st['rv'].get('adt', '').endswith('ActorModelAction') and
+                                       st['rv'].get('variant') in ('Deliver', 'Drop')):
+            if not any(acn.dominates(h.bb, i) and acn.in_cycle(h.bb) for h in heads):
+                okd = False
     ctx.check(okd, rule, 'actions-uses-deliverable', ac,
               good='actions() enumerates iter_deliverable()',
               bad='ActorModel::actions does not enumerate exactly the deliverable envelopes')
